@@ -149,6 +149,31 @@ pub open spec fn supported(u: TimeUnit) -> bool {
             r.0 * T::unit_spec().nanos() == this.0 * U::unit_spec().nanos(),                                           // #C16 finer_is_exact
 //@end
 
+impl<U: TimeUnitTrait> DateTime<U> {
+    // the method form callers use (`x.into_unit::<T>()`): the extracted function above, under the same contract
+    pub fn into_unit<T: TimeUnitTrait>(self) -> (r: DateTime<T>)
+    requires
+        supported(U::unit_spec()) && supported(T::unit_spec()),       // the four resolutions of the property; others: unimplemented!() panic
+        // converting to a finer unit: the instant must be representable there (otherwise the product overflows)
+        (self.0 != i64::MIN && U::unit_spec().nanos() > T::unit_spec().nanos()) ==>
+            i64::MIN * T::unit_spec().nanos() < self.0 * U::unit_spec().nanos() <= i64::MAX * T::unit_spec().nanos(),
+    ensures
+        self.0 == i64::MIN ==> r.0 == i64::MIN,                                              // #C16 nat_preserved
+        // instants compared in nanoseconds: value * nanos-per-unit.
+        // coarser (or equal) target: the same instant truncated toward the past (floor), also before 1970
+        (self.0 != i64::MIN && U::unit_spec().nanos() <= T::unit_spec().nanos()) ==>
+            r.0 * T::unit_spec().nanos() <= self.0 * U::unit_spec().nanos() < (r.0 + 1) * T::unit_spec().nanos(),      // #C16 truncated_toward_the_past
+        // finer target: exactly the same instant
+        (self.0 != i64::MIN && U::unit_spec().nanos() > T::unit_spec().nanos()) ==>
+            r.0 * T::unit_spec().nanos() == self.0 * U::unit_spec().nanos(),                                           // #C16 finer_is_exact
+    { into_unit::<U, T>(self) }
+//@fn name=into_i64 crate=tea-time ctx="impl<U: TimeUnitTrait> DateTime<U>" nth=1 props=C16
+//@sig pub const fn into_i64(self) -> (r: i64)
+//@spec
+    ensures r == self.0
+//@end
+}
+
 // ---- time of day and durations (C16 NaT absorption, C17 exact shift / inverse law)
 // chrono::Duration is abstract (A-CHRONO): all tevec needs is its nanosecond count, None when it does not fit an i64
 #[verifier::external_body]
